@@ -233,11 +233,17 @@ func TestC05(t *testing.T) {
 
 type c05Graph struct {
 	Triples []model.TripleSpec `json:"triples"`
+	// Bulk > 0: that many further short triples (/b<nI> "seq"@[..] I), so that the text has
+	// hundreds to thousands of lines and is several times the reader's buffer size
+	Bulk int `json:"bulk,omitempty"`
 }
 
 func genC05Graph(t *rapid.T) c05Graph {
 	n := rapid.IntRange(0, 30).Draw(t, "n")
 	var g c05Graph
+	if rapid.IntRange(0, 19).Draw(t, "bulk?") == 0 {
+		g.Bulk = rapid.SampledFrom([]int{255, 256, 257, 300, 1024, 2500}).Draw(t, "bulk")
+	}
 	pool := rapid.SliceOfN(gen.Triple(false), 1, 8).Draw(t, "pool")
 	for i := 0; i < n; i++ {
 		switch rapid.IntRange(0, 9).Draw(t, "src") {
@@ -301,6 +307,16 @@ func checkC05Graph(ctx *pbt.Ctx, c c05Graph) error {
 			newline = true
 		}
 		ts = append(ts, t)
+	}
+	for i := 0; i < c.Bulk; i++ {
+		sp := model.TripleSpec{S: model.NodeSpec{Type: "/b", ID: fmt.Sprintf("n%d", i)}, P: model.PredSpec{ID: "seq"}, O: model.ObjSpec{L: &model.LitSpec{Kind: "int64", I: int64(i)}}}
+		if i%3 == 0 {
+			sp.P.Anchor = &model.TimeSpec{Sec: 1136214245 + int64(i), Nsec: i % 1000, Off: 3600 * (i % 3)}
+		}
+		ts = append(ts, sp.MustTriple())
+	}
+	if c.Bulk > 0 {
+		ctx.Label("bulk")
 	}
 	if err := g.AddTriples(bg, ts); err != nil {
 		return fmt.Errorf("AddTriples: %v", err)
